@@ -7,7 +7,7 @@ def generate(tier, rng):
     c = Corpus()
     k = 0
     maxn = 12
-    gens = ['', 'ty', 'const', 'where']
+    gens = ['', 'ty', 'const', 'where', 'ty_nd']
     for n in range(0, maxn + 1):
         for pl in itercorpus.PLACEMENTS:
             if n == 0 and pl != 'none':
